@@ -198,6 +198,11 @@ pub struct Model {
     /// a frame whose execution the statements leave open was executed: keys the
     /// model has never heard of may exist now
     pub wild: bool,
+    /// number of successful mutations so far: each draws at most one token from the global
+    /// counter, which starts at 1, so the counter cannot have *counted* beyond draws + 1. Used to
+    /// tell the recorded known finding of C02 (the counter reaches a client-derived token by
+    /// counting) from a counter that was moved onto one.
+    pub draws: u64,
 }
 
 fn pres_code(p: Presence) -> u8 {
@@ -224,6 +229,7 @@ impl Model {
             cells: BTreeSet::new(),
             state_dependent: 0,
             wild: false,
+            draws: 0,
         }
     }
 
@@ -385,6 +391,7 @@ impl Model {
         ttl: impl Into<TtlSet>,
         check_unique: bool,
     ) {
+        self.draws += 1;
         let mut seen = BTreeSet::new();
         let mut client = client_cas;
         if !fresh_lifetime {
@@ -402,7 +409,9 @@ impl Model {
                 );
             }
             if check_unique && seen.contains(&c) {
-                if client {
+                // the recorded finding: the counter, counting on one by one, arrives at the token
+                let reached_by_counting = self.wild || c <= self.draws.saturating_add(1);
+                if client && reached_by_counting {
                     // the lifetime began with a CAS-carrying store of an absent key, whose token is
                     // derived from the client's (supplied + 1) and not from the global counter: the
                     // counter reaches that value later
@@ -464,7 +473,7 @@ impl Model {
             }
             None => {
                 let dup = it.cas_seen.contains(&cas);
-                let client = it.client_cas_lifetime;
+                let client = it.client_cas_lifetime && (self.wild || cas <= self.draws.saturating_add(1));
                 it.cas = Some(cas);
                 it.cas_seen.insert(cas);
                 if dup {
